@@ -1161,6 +1161,90 @@ func (l *Life) LeanMultiScenario(tag string) {
 	}
 }
 
+// BoundsScenario: values at the boundaries of the variable-length encodings (127/128, 16383/16384, 2^21, 2^28) as
+// frequencies, field lengths (norms), positions, offsets, array positions and stored sizes; terms of length 0, 1,
+// 255, 256 and 4096; ids and field names that are prefixes of one another or contain a zero byte.  Built under two
+// chunk modes, persisted, re-opened, merged with a deletion and merged again.
+func (l *Life) BoundsScenario(tag string) {
+	l.Reset(1024, tag)
+	edge := []int{127, 128, 16383, 16384, 2097151, 2097152, 268435455, 268435456, 1, 0}
+	pick := func() int { return edge[l.r.Intn(len(edge))] }
+	long := func(n int, c byte) B {
+		b := make(B, n)
+		for i := range b {
+			b[i] = c + byte(i%3)
+		}
+		return b
+	}
+	terms := []B{B{}, B("a"), long(255, 'k'), long(256, 'k'), long(4096, 'q'), B("a\x00"), B("ab")}
+	names := []string{"f", "fa", "f\x00", "fab", "g"}
+	ids := []string{"a", "ab", "abc", "b\x00", "b", "", "ab\x00"}
+	mk := func(base int) []Doc {
+		docs := []Doc{}
+		for i, id := range ids {
+			d := Doc{ID: B(id), Fields: []FieldInst{IDField(B(id))}}
+			for j, name := range names {
+				if (i+j+base)%3 == 0 {
+					continue
+				}
+				fi := FieldInst{Name: B(name), Typ: []int{0, 255, 't', 'n'}[(i+j)%4], DV: j%2 == 0, Len: 1 + pick()}
+				if (i+j)%2 == 0 {
+					fi.Stored = true
+					fi.Value = randBytes(l.r, []int{0, 1, 127, 128, 255, 256}[l.r.Intn(6)])
+					fi.AP = Ints{pick(), pick()}
+				}
+				seen := map[string]bool{}
+				for k := 0; k < 3; k++ {
+					t := terms[l.r.Intn(len(terms))]
+					if seen[string(t)] {
+						continue
+					}
+					seen[string(t)] = true
+					fr := []int{1, 2, 127, 128, 16383, 16384, 0}[l.r.Intn(7)]
+					tok := Tok{T: t, Fr: fr, Locs: []Loc{}}
+					if fr > 0 && l.r.Intn(3) != 0 {
+						nl := 1 + l.r.Intn(2)
+						if nl > fr {
+							nl = fr
+						}
+						for x := 0; x < nl; x++ {
+							st := pick()
+							tok.Locs = append(tok.Locs, Loc{F: B{}, P: pick(), S: st, E: st + pick()%1000, AP: Ints{pick()}})
+						}
+					}
+					fi.Toks = append(fi.Toks, tok)
+				}
+				d.Fields = append(d.Fields, fi)
+			}
+			d.Canon()
+			docs = append(docs, d)
+		}
+		return docs
+	}
+	a := l.Build(mk(0), 1026)
+	b := l.Build(mk(1), 2)
+	if a == nil || b == nil {
+		return
+	}
+	var oa *hseg
+	if k := l.Persist(a); l.files[k] != nil {
+		oa = l.Open(k)
+	}
+	if oa == nil {
+		return
+	}
+	if k, ok := l.Merge([]*hseg{oa, b}, []Drop{{Ds: Ints{1}}, {Nil: true, Ds: Ints{}}}, 1026); ok {
+		if m := l.Open(k); m != nil && !m.zero {
+			if k2, ok := l.Merge([]*hseg{m}, []Drop{{Ds: Ints{0, m.ndocs - 1}}}, 3); ok {
+				l.Open(k2)
+			}
+		}
+	}
+	for _, h := range l.live() {
+		l.Close(h)
+	}
+}
+
 // WideScenario: a segment with more than 128 fields goes through every writer and reader once: built,
 // persisted, re-opened, merged with deletions (alone and with a second wide segment), merged again.
 func (l *Life) WideScenario(p *GenProfile, tag string) {
